@@ -45,14 +45,19 @@ CmdFaults  == {"exit_before_write", "exit_after_partial", "exit_after_all", "sig
 
 PortId(n, port) == n \o "." \o port
 SeqPorts(n, s)  == {PortId(n, s[i]) : i \in DOMAIN s}
-IsRelay(n)    == PR(n).kind \in {"pcomb", "maptotags"}
-     \* "pcomb": ParamCombinator with one port - collects its whole input, then emits it;
+\* combinators: ParamCombinator ("pcomb", param ports) with two or more ports and FileCombinator ("fcomb", file ports):
+\* drain every in-port completely, one after the other, then emit the aligned Cartesian product, one goroutine per out-port
+IsComb(n)     == (PR(n).kind = "pcomb" /\ Len(PR(n).params) >= 2) \/ PR(n).kind = "fcomb"
+CombNames(n)  == IF PR(n).kind = "fcomb" THEN PR(n).ins ELSE PR(n).params
+IsRelay(n)    == (PR(n).kind = "pcomb" /\ ~IsComb(n)) \/ PR(n).kind = "maptotags"
+     \* "pcomb" with one port: collects its whole input, then emits it;
      \* "maptotags": pass-through component - forwards every item as it arrives (ports in / out)
 IsPass(n)     == PR(n).kind = "maptotags"
-InPortsTab    == [n \in PNames |-> IF IsCmd(n) THEN SeqPorts(n, PR(n).ins) ELSE IF IsPass(n) THEN {PortId(n, "in")} ELSE {}]
+InPortsTab    == [n \in PNames |-> IF IsCmd(n) \/ PR(n).kind = "fcomb" THEN SeqPorts(n, PR(n).ins) ELSE IF IsPass(n) THEN {PortId(n, "in")} ELSE {}]
 ParamPortsTab == [n \in PNames |-> IF IsCmd(n) \/ PR(n).kind = "pcomb" THEN SeqPorts(n, PR(n).params) ELSE {}]
 FileOutsTab   == [n \in PNames |-> IF IsCmd(n) THEN SeqPorts(n, PR(n).outs)
-                                   ELSE IF PR(n).kind = "src" \/ IsPass(n) THEN {PortId(n, "out")} ELSE {}]
+                                   ELSE IF PR(n).kind = "src" \/ IsPass(n) THEN {PortId(n, "out")}
+                                   ELSE IF PR(n).kind = "fcomb" THEN {PortId(n, PR(n).ins[i]) \o ">" : i \in DOMAIN PR(n).ins} ELSE {}]
 ParamOutsTab  == [n \in PNames |-> IF PR(n).kind = "psrc" THEN {PortId(n, "out")}
                                    ELSE IF PR(n).kind = "pcomb" THEN {PortId(n, PR(n).params[i]) \o ">" : i \in DOMAIN PR(n).params} ELSE {}]
 \* out-ports declared as streaming ({os:..}): the IP is handed over when the task is taken, the bytes go through a FIFO
@@ -111,10 +116,19 @@ InitUps(port) == InitUpsTab[port]
 Emitters  == {n \in RunSet : ~IsCmd(n)}
 FeedIds   == {FeedId(f) : f \in Feeds}
 FeedOf(id) == CHOOSE f \in Feeds : FeedId(f) = id
-EmIds     == Emitters \cup FeedIds
+Combs     == {n \in RunSet : IsComb(n)}
+SubId(n, p) == n \o "/" \o p          \* the sending goroutine of combinator n for port p
+SubIds    == UNION {{SubId(n, CombNames(n)[i]) : i \in DOMAIN CombNames(n)} : n \in Combs}
+SubOwnerTab == [e \in SubIds |-> CHOOSE n \in Combs : \E i \in DOMAIN CombNames(n) : SubId(n, CombNames(n)[i]) = e]
+SubPortTab  == [e \in SubIds |-> CHOOSE p \in ToSet(CombNames(SubOwnerTab[e])) : SubId(SubOwnerTab[e], p) = e]
+SubsOf(n) == {e \in SubIds : SubOwnerTab[e] = n}
+EmIds     == Emitters \cup FeedIds \cup SubIds
 EmItemsTab == [e \in EmIds |-> IF e \in FeedIds THEN FeedOf(e).values
+                               ELSE IF e \in SubIds THEN <<>>
                                ELSE IF PR(e).kind = "src" THEN PR(e).items ELSE PR(e).values]
 EmOutTab   == [e \in EmIds |-> IF e \in FeedIds THEN FeedOut(FeedOf(e))
+                               ELSE IF e \in SubIds THEN PortId(SubOwnerTab[e], SubPortTab[e]) \o ">"
+                               ELSE IF IsComb(e) THEN PortId(e, CombNames(e)[1]) \o ">"
                                ELSE IF PR(e).kind = "pcomb" THEN PortId(e, PR(e).params[1]) \o ">" ELSE PortId(e, "out")]
 RelayIn(e) == IF IsPass(e) THEN PortId(e, "in") ELSE PortId(e, PR(e).params[1])
 EmRemotesTab == [e \in EmIds |-> IF e \in FeedIds THEN {FeedOf(e).to} ELSE RemotesOf(EmOutTab[e])]
@@ -145,9 +159,20 @@ NSetsTab == [n \in {m \in RunSet : IsCmd(m)} |-> NSets0(n)]
 NSets(n) == NSetsTab[n]
 ExpIns(n, k)    == [i \in DOMAIN PR(n).ins    |-> InStream(PortId(n, PR(n).ins[i]))[k]]
 ExpParams(n, k) == [i \in DOMAIN PR(n).params |-> InStream(PortId(n, PR(n).params[i]))[k]]
+\* the aligned Cartesian product: the stream of the j-th key, each element repeated (product of the later lengths) times,
+\* the whole tiled (product of the earlier lengths) times - combine() of the components, in closed form
+RECURSIVE ProdSeq(_)
+ProdSeq(ls) == IF ls = <<>> THEN 1 ELSE ls[1] * ProdSeq(Tail(ls))
+RepEach(sq, k) == FlattenSeq([i \in DOMAIN sq |-> [j \in 1..k |-> sq[i]]])
+Tile(sq, k)    == FlattenSeq([j \in 1..k |-> sq])
+ProductStream(streams, j) ==      \* streams: sequence of the input streams in key order
+  LET lens == [i \in DOMAIN streams |-> Len(streams[i])]
+  IN  Tile(RepEach(streams[j], ProdSeq(SubSeq(lens, j + 1, Len(lens)))), ProdSeq(SubSeq(lens, 1, j - 1)))
+CombIdx(n, op) == CHOOSE i \in DOMAIN CombNames(n) : PortId(n, CombNames(n)[i]) \o ">" = op
 OutStream(op) ==
   LET n == Owner(op) IN
-  IF IsRelay(n) THEN InStream(RelayIn(n))
+  IF IsComb(n) THEN ProductStream([i \in DOMAIN CombNames(n) |-> InStream(PortId(n, CombNames(n)[i]))], CombIdx(n, op))   \* canonical key order
+  ELSE IF IsRelay(n) THEN InStream(RelayIn(n))
   ELSE IF ~IsCmd(n) THEN (IF PR(n).kind = "src" THEN PR(n).items ELSE PR(n).values)
   ELSE LET port == CHOOSE o \in ToSet(PR(n).outs) : PortId(n, o) = op
        IN  [k \in 1..NSets(n) |-> OutItem(n, port, ExpIns(n, k), ExpParams(n, k))]
@@ -167,12 +192,17 @@ RECURSIVE OrdOut(_)
 OrdIn(port) == Cardinality(UpsOfPort(port)) = 1 /\
                (\A e \in {x \in AllEdges : x.to = port /\ x.fp \in RunSet} : OrdOut(e.from))
 OrdOut(op) == LET n == Owner(op) IN
-              (~IsCmd(n) /\ ~IsRelay(n)) \/ \A port \in InPortsOf(n) \cup ParamPortsOf(n) : OrdIn(port)
+              IF IsComb(n) THEN FALSE        \* the order of the product depends on the (random) key order of the component
+              ELSE (~IsCmd(n) /\ ~IsRelay(n)) \/ \A port \in InPortsOf(n) \cup ParamPortsOf(n) : OrdIn(port)
+\* every port of n is fed by exactly one out-port of one and the same combinator: the tuples stay aligned, their SET is order-independent
+AlignedComb(n) == \E c \in Combs : \A port \in InPortsOf(n) \cup ParamPortsOf(n) :
+                     Cardinality(UpsOfPort(port)) = 1 /\ UpsOfPort(port) \subseteq OutsOf(c)
 \* The set of files is a function of the graph alone when every process with more
 \* than one port receives ordered streams only (restriction of this oracle).
 MergeInsensitive == \A n \in CmdRun :
    Cardinality(InPortsOf(n) \cup ParamPortsOf(n)) <= 1
    \/ \A port \in InPortsOf(n) \cup ParamPortsOf(n) : OrdIn(port)
+   \/ AlignedComb(n)
 
 \* exported to the harness: the oracle for what a real run of this instance must produce
 ExpectedJson == ToJson([tasks |-> ExpTasks, files |-> ExpFiles, execkeys |-> ExpExecKeys,
@@ -205,21 +235,31 @@ VARIABLES
   execs,     \* ghost: task key -> number of command executions
   emitted,   \* ghost: out-port -> sequence of items handed to the port
   recvd,     \* ghost: in-port -> sequence of <<from, item>> received
+  cb,        \* combinator -> [left: in-ports not yet drained, cur: the port being drained or "", got: port -> items, perm: key order of combine()]
   strm       \* streaming: [fifos: items whose FIFO exists, wopen: items whose producer command has started (writer opened),
              \*             ropen: items whose consumer command has started (reader opened)]  - wopen / ropen only grow
 
 vars == <<phase, q, ups, em, relayed, rpc, ctpc, ctleft, ctgot, ctopen, offer, tasksnil, tk, ts, started,
-          sout, cl, tokens, final, failed, execs, emitted, recvd, strm>>
+          sout, cl, tokens, final, failed, execs, emitted, recvd, strm, cb>>
 
 StrmInit == [fifos |-> {}, wopen |-> {}, ropen |-> {}]
-EmItems(e) == IF e \in Relays THEN relayed[e] ELSE EmItemsTab[e]
+CombPorts(n) == {PortId(n, CombNames(n)[i]) : i \in DOMAIN CombNames(n)}
+CbInit == [n \in Combs |-> [left |-> CombPorts(n), cur |-> "", got |-> [port \in CombPorts(n) |-> <<>>], perm |-> <<>>]]
+EmInit == [e \in EmIds |-> [i |-> 1, left |-> EmRemotes(e), wait |-> "", eof |-> FALSE,
+                            st |-> IF e \in Relays \cup Combs THEN "collect" ELSE IF e \in SubIds THEN "wait" ELSE "run"]]
+CombOutItems(n, p) == LET perm == cb[n].perm
+                          j == CHOOSE i \in DOMAIN perm : perm[i] = p
+                      IN  ProductStream([i \in DOMAIN perm |-> cb[n].got[PortId(n, perm[i])]], j)
+EmItems(e) == IF e \in Relays THEN relayed[e]
+              ELSE IF e \in SubIds THEN (IF cb[SubOwnerTab[e]].perm = <<>> THEN <<>> ELSE CombOutItems(SubOwnerTab[e], SubPortTab[e]))
+              ELSE EmItemsTab[e]
 AllOuts == UNION {OutsOf(n) : n \in RunSet} \cup {EmOut(e) : e \in FeedIds}
 
 Init ==
   /\ phase = IF WiringFails THEN "failed" ELSE "init"
   /\ q = [port \in AllInPorts |-> <<>>]
   /\ ups = [port \in AllInPorts |-> InitUps(port)]
-  /\ em = [e \in EmIds |-> [i |-> 1, left |-> EmRemotes(e), wait |-> "", st |-> IF e \in Relays THEN "collect" ELSE "run", eof |-> FALSE]]
+  /\ em = EmInit
   /\ relayed = [e \in Relays |-> <<>>]
   /\ rpc = [n \in CmdRun |-> "idle"]
   /\ ctpc = [n \in CmdRun |-> "off"]
@@ -240,6 +280,7 @@ Init ==
   /\ emitted = [op \in AllOuts |-> <<>>]
   /\ recvd = [port \in AllInPorts |-> <<>>]
   /\ strm = StrmInit
+  /\ cb = CbInit
 
 (************************ channel primitives ******************************)
 \* index i of q[port] may be received: Closed - the head; acceptor - the oldest entry of its sender
@@ -256,7 +297,7 @@ Active(e) == IF e \in FeedIds THEN phase \in {"init", "running"} ELSE Running
 StartProcs == /\ phase = "init"
               /\ phase' = "running"
               /\ UNCHANGED <<q, ups, em, relayed, rpc, ctpc, ctleft, ctgot, ctopen, offer, tasksnil, tk, ts, started,
-                             sout, cl, tokens, final, failed, execs, emitted, recvd, strm>>
+                             sout, cl, tokens, final, failed, execs, emitted, recvd, strm, cb>>
 
 (************************ emitters: sources, param sources, feeders *******)
 EmSendBegin(e, r) ==
@@ -272,14 +313,14 @@ EmSendBegin(e, r) ==
                                                       ELSE [@ EXCEPT !.left = left]]
                  ELSE [em EXCEPT ![e] = [@ EXCEPT !.left = left, !.wait = r]]
   /\ UNCHANGED <<phase, ups, relayed, rpc, ctpc, ctleft, ctgot, ctopen, offer, tasksnil, tk, ts, started, sout, cl,
-                 tokens, final, failed, execs, recvd, strm>>
+                 tokens, final, failed, execs, recvd, strm, cb>>
 
 EmSendDone(e, r) ==     \* acceptor mode only
   /\ ~Closed /\ Active(e) /\ em[e].wait = r /\ r # ""
   /\ em' = [em EXCEPT ![e] = IF @.left = {} THEN [@ EXCEPT !.i = @ + 1, !.left = EmRemotes(e), !.wait = ""]
                                             ELSE [@ EXCEPT !.wait = ""]]
   /\ UNCHANGED <<phase, q, ups, relayed, rpc, ctpc, ctleft, ctgot, ctopen, offer, tasksnil, tk, ts, started, sout, cl,
-                 tokens, final, failed, execs, emitted, recvd, strm>>
+                 tokens, final, failed, execs, emitted, recvd, strm, cb>>
 
 \* a relay (one-port ParamCombinator) receives until its port is closed, then starts emitting
 RelayRecv(e, i) ==
@@ -296,15 +337,57 @@ RelayRecv(e, i) ==
         /\ em' = [em EXCEPT ![e].st = "run", ![e].eof = TRUE]
         /\ UNCHANGED <<q, recvd, relayed>>
   /\ UNCHANGED <<phase, ups, rpc, ctpc, ctleft, ctgot, ctopen, offer, tasksnil, tk, ts, started, sout, cl,
-                 tokens, final, failed, execs, emitted, strm>>
+                 tokens, final, failed, execs, emitted, strm, cb>>
 
 EmFinish(e) ==          \* all items sent: deferred CloseAllOutPorts / pop.Close
+  /\ e \notin SubIds
   /\ Active(e) /\ em[e].st = "run" /\ em[e].wait = "" /\ em[e].i > Len(EmItems(e))
   /\ e \in Relays => em[e].eof
   /\ em' = [em EXCEPT ![e].st = "closing"]
   /\ cl' = [cl EXCEPT ![e] = {<<EmOut(e), r>> : r \in EmRemotes(e)}]
   /\ UNCHANGED <<phase, q, ups, relayed, rpc, ctpc, ctleft, ctgot, ctopen, offer, tasksnil, tk, ts, started, sout,
+                 tokens, final, failed, execs, emitted, recvd, strm, cb>>
+
+\* ---- combinators -------------------------------------------------------------------------------
+\* the component ranges over its in-ports (map order = any order) and drains each one until it is closed
+CombPick(n, port) ==
+  /\ Running /\ em[n].st = "collect" /\ cb[n].cur = "" /\ port \in cb[n].left
+  /\ cb' = [cb EXCEPT ![n].cur = port]
+  /\ UNCHANGED <<phase, q, ups, em, relayed, rpc, ctpc, ctleft, ctgot, ctopen, offer, tasksnil, tk, ts, started, sout, cl,
                  tokens, final, failed, execs, emitted, recvd, strm>>
+CombRecv(n, i) ==
+  /\ Running /\ em[n].st = "collect" /\ cb[n].cur # ""
+  /\ LET port == cb[n].cur IN
+     \/ /\ i > 0 /\ Receivable(port, i)
+        /\ q' = [q EXCEPT ![port] = DropAt(@, i)]
+        /\ recvd' = [recvd EXCEPT ![port] = Append(@, q[port][i])]
+        /\ cb' = [cb EXCEPT ![n].got[port] = Append(@, q[port][i][2])]
+     \/ /\ i = 0 /\ PortClosed(port)
+        /\ cb' = [cb EXCEPT ![n].cur = "", ![n].left = @ \ {port}]
+        /\ UNCHANGED <<q, recvd>>
+  /\ UNCHANGED <<phase, ups, em, relayed, rpc, ctpc, ctleft, ctgot, ctopen, offer, tasksnil, tk, ts, started, sout, cl,
+                 tokens, final, failed, execs, emitted, strm>>
+\* combine(): the key order is the iteration order of a second map (any permutation; the closed model fixes the canonical one,
+\* the streams of all permutations have the same lengths and the same aligned tuples)
+CombPerms(n) == IF Closed THEN {CombNames(n)} ELSE SetToSeqs(ToSet(CombNames(n)))
+CombEmit(n, perm) ==
+  /\ Running /\ em[n].st = "collect" /\ cb[n].left = {} /\ cb[n].cur = "" /\ perm \in CombPerms(n)
+  /\ cb' = [cb EXCEPT ![n].perm = perm]
+  /\ em' = [e \in EmIds |-> IF e = n THEN [em[e] EXCEPT !.st = "emitting"]
+                             ELSE IF e \in SubsOf(n) THEN [em[e] EXCEPT !.st = "run"] ELSE em[e]]
+  /\ UNCHANGED <<phase, q, ups, relayed, rpc, ctpc, ctleft, ctgot, ctopen, offer, tasksnil, tk, ts, started, sout, cl,
+                 tokens, final, failed, execs, emitted, recvd, strm>>
+SubFinish(e) ==         \* the sending goroutine of one out-port has sent everything (wg.Done)
+  /\ Running /\ e \in SubIds /\ em[e].st = "run" /\ em[e].wait = "" /\ em[e].i > Len(EmItems(e))
+  /\ em' = [em EXCEPT ![e].st = "done"]
+  /\ UNCHANGED <<phase, q, ups, relayed, rpc, ctpc, ctleft, ctgot, ctopen, offer, tasksnil, tk, ts, started, sout, cl,
+                 tokens, final, failed, execs, emitted, recvd, strm, cb>>
+CombFinish(n) ==        \* wg.Wait() returned: deferred CloseAllOutPorts
+  /\ Running /\ em[n].st = "emitting" /\ \A e \in SubsOf(n) : em[e].st = "done"
+  /\ em' = [em EXCEPT ![n].st = "closing"]
+  /\ cl' = [cl EXCEPT ![n] = {pr \in OutsOf(n) \X AllInPorts : pr[2] \in RemotesOf(pr[1])}]
+  /\ UNCHANGED <<phase, q, ups, relayed, rpc, ctpc, ctleft, ctgot, ctopen, offer, tasksnil, tk, ts, started, sout,
+                 tokens, final, failed, execs, emitted, recvd, strm, cb>>
 
 \* CloseConnection: atomic under the in-port's closeLock
 CloseConn(x, op, r) ==
@@ -318,7 +401,7 @@ CloseConn(x, op, r) ==
      ELSE /\ rpc' = IF cl'[x] = {} THEN [rpc EXCEPT ![x] = "done"] ELSE rpc
           /\ em' = em
   /\ UNCHANGED <<phase, q, relayed, ctpc, ctleft, ctgot, ctopen, offer, tasksnil, tk, ts, started, sout,
-                 tokens, final, failed, execs, emitted, recvd, strm>>
+                 tokens, final, failed, execs, emitted, recvd, strm, cb>>
 
 (************************ cmd processes: Run loop and createTasks *********)
 OutPairsTab == [n \in CmdRun |-> {<<op, r>> \in FileOutsOf(n) \X AllInPorts : r \in RemotesOf(op)}]
@@ -337,7 +420,7 @@ ProcStart(n) ==
           /\ ctleft' = [ctleft EXCEPT ![n] = PhasePorts(n, FirstPhase(n))]
           /\ phase' = phase
   /\ UNCHANGED <<q, ups, em, relayed, ctgot, ctopen, offer, tasksnil, tk, ts, started, sout, cl,
-                 tokens, final, failed, execs, emitted, recvd, strm>>
+                 tokens, final, failed, execs, emitted, recvd, strm, cb>>
 
 \* one receive of createTasks (file or param port); i = 0 stands for "closed"
 CTRecv(n, port, i) ==
@@ -357,7 +440,7 @@ CTRecv(n, port, i) ==
      IN /\ ctpc' = [ctpc EXCEPT ![n] = nxt]
         /\ ctleft' = [ctleft EXCEPT ![n] = IF left # {} THEN left ELSE PhasePorts(n, nxt)]
   /\ UNCHANGED <<phase, ups, em, relayed, rpc, offer, tasksnil, tk, ts, started, sout, cl,
-                 tokens, final, failed, execs, emitted, strm>>
+                 tokens, final, failed, execs, emitted, strm, cb>>
 
 AfterOffer(n) == IF InPortsOf(n) = {} /\ ParamPortsOf(n) = {} THEN "end" ELSE FirstPhase(n)
 GotIns(n)    == [i \in DOMAIN PR(n).ins    |-> ctgot[n][PortId(n, PR(n).ins[i])]]
@@ -384,7 +467,7 @@ CTOffer(n) ==
                   /\ ctleft' = [ctleft EXCEPT ![n] = PhasePorts(n, AfterOffer(n))]
                   /\ ctopen' = [ctopen EXCEPT ![n] = TRUE]
   /\ UNCHANGED <<q, ups, em, relayed, rpc, tasksnil, started, sout, cl,
-                 tokens, final, failed, execs, emitted, recvd, strm>>
+                 tokens, final, failed, execs, emitted, recvd, strm, cb>>
 
 StreamItems == UNION {{emitted[op][i] : i \in DOMAIN emitted[op]} : op \in UNION {StreamOutsOf(n) : n \in CmdRun}}
 TKey(n, k)  == tk[n][k].key
@@ -422,7 +505,7 @@ TakeTask(n) ==
           /\ ctopen' = [ctopen EXCEPT ![n] = TRUE]
      ELSE UNCHANGED <<ctpc, ctleft, ctopen>>
   /\ UNCHANGED <<phase, q, ups, em, relayed, ctgot, tasksnil, tk, cl,
-                 tokens, final, failed, execs, recvd>>
+                 tokens, final, failed, execs, recvd, cb>>
 
 \* the Run loop sends the streaming IP of the task just taken to every remote of the port, then spawns the task
 FifoSent(n) == LET k == sout[n].n IN
@@ -440,13 +523,13 @@ FifoSendBegin(n, op, r) ==
      ELSE /\ sout' = [sout EXCEPT ![n].left = left, ![n].wait = <<op, r>>]
           /\ UNCHANGED <<rpc, ts, started>>
   /\ UNCHANGED <<phase, ups, em, relayed, ctpc, ctleft, ctgot, ctopen, offer, tasksnil, tk, cl,
-                 tokens, final, failed, execs, emitted, recvd, strm>>
+                 tokens, final, failed, execs, emitted, recvd, strm, cb>>
 FifoSendDone(n, op, r) ==     \* acceptor mode only
   /\ ~Closed /\ Running /\ rpc[n] = "sendfifo" /\ sout[n].wait = <<op, r>>
   /\ sout' = [sout EXCEPT ![n].wait = <<>>]
   /\ IF sout[n].left = {} THEN FifoSent(n) ELSE UNCHANGED <<rpc, ts, started>>
   /\ UNCHANGED <<phase, q, ups, em, relayed, ctpc, ctleft, ctgot, ctopen, offer, tasksnil, tk, cl,
-                 tokens, final, failed, execs, emitted, recvd, strm>>
+                 tokens, final, failed, execs, emitted, recvd, strm, cb>>
 
 \* createTasks has stopped: what still arrives on the process's ports is received and dropped
 \* (drainInPorts, fix F12); switched off by the weakening flag "NoDrain"
@@ -456,24 +539,24 @@ CTDrain(n, port, i) ==
   /\ q' = [q EXCEPT ![port] = DropAt(@, i)]
   /\ recvd' = [recvd EXCEPT ![port] = Append(@, q[port][i])]
   /\ UNCHANGED <<phase, ups, em, relayed, rpc, ctpc, ctleft, ctgot, ctopen, offer, tasksnil, tk, ts, started, sout, cl,
-                 tokens, final, failed, execs, emitted, strm>>
+                 tokens, final, failed, execs, emitted, strm, cb>>
 
 CTEnd(n) ==           \* createTasks returns, deferred close(ch)
   /\ Running /\ ctpc[n] = "end"
   /\ ctpc' = [ctpc EXCEPT ![n] = "closed"]
   /\ UNCHANGED <<phase, q, ups, em, relayed, rpc, ctleft, ctgot, ctopen, offer, tasksnil, tk, ts, started, sout, cl,
-                 tokens, final, failed, execs, emitted, recvd, strm>>
+                 tokens, final, failed, execs, emitted, recvd, strm, cb>>
 
 TasksClosed(n) ==     \* Run loop sees the closed task channel
   /\ Running /\ rpc[n] = "loop" /\ ctpc[n] = "closed" /\ offer[n] = <<>> /\ ~tasksnil[n]
   /\ tasksnil' = [tasksnil EXCEPT ![n] = TRUE]
   /\ UNCHANGED <<phase, q, ups, em, relayed, rpc, ctpc, ctleft, ctgot, ctopen, offer, tk, ts, started, sout, cl,
-                 tokens, final, failed, execs, emitted, recvd, strm>>
+                 tokens, final, failed, execs, emitted, recvd, strm, cb>>
 
 (************************ tasks *******************************************)
 SetTs(n, k, s) == ts' = [ts EXCEPT ![n][k] = s]
 TaskUnch0 == UNCHANGED <<q, ups, em, relayed, rpc, ctpc, ctleft, ctgot, ctopen, offer, tasksnil, tk, started, sout, cl,
-                         emitted, recvd>>
+                         emitted, recvd, cb>>
 TaskUnch == TaskUnch0 /\ UNCHANGED strm
 
 ExBegin(n, k) ==       \* "exec.begin"
@@ -563,7 +646,7 @@ TakeDone(n) ==
                                         ELSE emitted[op]]
      /\ strm' = IF "NoFifoRemove" \in Weak THEN strm ELSE [strm EXCEPT !.fifos = @ \ TStreams(n, k)]        \* os.Remove(FifoPath)
   /\ UNCHANGED <<phase, q, ups, em, relayed, ctpc, ctleft, ctgot, ctopen, offer, tasksnil, tk, cl,
-                 tokens, final, failed, execs, recvd>>
+                 tokens, final, failed, execs, recvd, cb>>
 
 SendOutBegin(n, op, r) ==
   /\ Running /\ rpc[n] = "sendout" /\ sout[n].wait = <<>> /\ <<op, r>> \in sout[n].left
@@ -576,14 +659,14 @@ SendOutBegin(n, op, r) ==
      ELSE /\ sout' = [sout EXCEPT ![n].left = left, ![n].wait = <<op, r>>]
           /\ rpc' = rpc
   /\ UNCHANGED <<phase, ups, em, relayed, ctpc, ctleft, ctgot, ctopen, offer, tasksnil, tk, ts, started, cl,
-                 tokens, final, failed, execs, emitted, recvd, strm>>
+                 tokens, final, failed, execs, emitted, recvd, strm, cb>>
 
 SendOutDone(n, op, r) ==     \* acceptor mode only
   /\ ~Closed /\ Running /\ rpc[n] = "sendout" /\ sout[n].wait = <<op, r>>
   /\ sout' = [sout EXCEPT ![n].wait = <<>>]
   /\ rpc' = [rpc EXCEPT ![n] = IF sout[n].left = {} THEN "loop" ELSE "sendout"]
   /\ UNCHANGED <<phase, q, ups, em, relayed, ctpc, ctleft, ctgot, ctopen, offer, tasksnil, tk, ts, started, cl,
-                 tokens, final, failed, execs, emitted, recvd, strm>>
+                 tokens, final, failed, execs, emitted, recvd, strm, cb>>
 
 RunExit(n) ==          \* loop ends, deferred CloseOutPorts ("proc.exit")
   /\ Running /\ rpc[n] = "loop" /\ tasksnil[n]
@@ -592,7 +675,7 @@ RunExit(n) ==          \* loop ends, deferred CloseOutPorts ("proc.exit")
      /\ cl' = [cl EXCEPT ![n] = pend]
      /\ rpc' = [rpc EXCEPT ![n] = IF pend = {} THEN "done" ELSE "closing"]
   /\ UNCHANGED <<phase, q, ups, em, relayed, ctpc, ctleft, ctgot, ctopen, offer, tasksnil, tk, ts, started, sout,
-                 tokens, final, failed, execs, emitted, recvd, strm>>
+                 tokens, final, failed, execs, emitted, recvd, strm, cb>>
 
 (************************ sink and main ***********************************)
 SinkPorts == (IF SinkUps # {} THEN {SinkIn} ELSE {}) \cup (IF PSinkUps # {} THEN {PSinkIn} ELSE {})
@@ -603,7 +686,7 @@ SinkRecv(port, i) ==
   /\ q' = [q EXCEPT ![port] = DropAt(@, i)]
   /\ recvd' = [recvd EXCEPT ![port] = Append(@, q[port][i])]
   /\ UNCHANGED <<phase, ups, em, relayed, rpc, ctpc, ctleft, ctgot, ctopen, offer, tasksnil, tk, ts, started, sout, cl,
-                 tokens, final, failed, execs, emitted, strm>>
+                 tokens, final, failed, execs, emitted, strm, cb>>
 
 DriverDone == /\ SinkRuns => \A port \in SinkPorts : PortClosed(port)
               /\ Driver # "SINK" => rpc[Driver] = "done"
@@ -615,8 +698,13 @@ MainReturn ==
   /\ Running /\ DriverDone /\ AllProcsDone
   /\ phase' = "returned"
   /\ UNCHANGED <<q, ups, em, relayed, rpc, ctpc, ctleft, ctgot, ctopen, offer, tasksnil, tk, ts, started, sout, cl,
-                 tokens, final, failed, execs, emitted, recvd, strm>>
+                 tokens, final, failed, execs, emitted, recvd, strm, cb>>
 
+CombStep == \/ \E n \in Combs : \/ \E port \in CombPorts(n) : CombPick(n, port)
+                                 \/ (cb[n].cur # "" /\ \E i \in 0..Len(q[cb[n].cur]) : CombRecv(n, i))
+                                 \/ \E perm \in CombPerms(n) : CombEmit(n, perm)
+                                 \/ CombFinish(n)
+            \/ \E e \in SubIds : SubFinish(e)
 Terminated == phase \in {"returned", "failed"} /\ UNCHANGED vars
 NoStates == phase = "none"   \* constraint used when only the constant definitions are wanted
 
@@ -625,6 +713,7 @@ Next ==
   \/ \E e \in EmIds : \/ \E r \in AllInPorts : EmSendBegin(e, r) \/ EmSendDone(e, r)
                       \/ EmFinish(e)
   \/ \E e \in Relays : \E i \in 0..Len(q[RelayIn(e)]) : RelayRecv(e, i)
+  \/ CombStep
   \/ \E x \in EmIds \cup CmdRun : \E op \in AllOuts, r \in AllInPorts : CloseConn(x, op, r)
   \/ \E n \in CmdRun :
         \/ ProcStart(n) \/ CTOffer(n) \/ TakeTask(n) \/ CTEnd(n) \/ TasksClosed(n)
